@@ -37,8 +37,9 @@ RULE = ('a case = one FileStream configuration (max_bytes, backup_count, time_fo
         'file sizes and number of rollovers.')
 ASSUMPTIONS = [
     'C20 only: none of the daemon/simulated-kernel assumptions above are used; FileStream is driven directly, '
-    'single-threaded, on a local filesystem under tempfile.mkdtemp(); no I/O errors, no concurrent writer, '
-    'nobody else touches the directory',
+    'single-threaded, on real files in a fresh tempfile.mkdtemp() per shard ($TMPDIR if set, else the tmpfs '
+    '/dev/shm, else the default; always outside /repo and /verif, removed in a finally); POSIX rename/unlink '
+    'semantics; no I/O errors, no concurrent writer, nobody else touches the directory',
     'the "randomly beyond" part of the quantifier is NOT done: there is no sampling; only the bounds listed '
     'under coverage.bounds are covered (max_bytes 4..8, or 15..19 with time_format; backup_count 1..3)',
     'payloads are ASCII (one byte per character), given as str or bytes; no payload has two consecutive '
@@ -73,35 +74,51 @@ SPOT = 61
 
 # ------------------------------------------------------------------------------------------ bounds
 
-def _rooms(tier):
-    return [4, 5, 6, 7, 8]
+ROOMS = [4, 5, 6, 7, 8]      # max_bytes with time_format off; payload sizes are 1..room-1 in both modes
+
+# Sequence lengths (number of enumerated events; for B and C one of them is the special event), per
+# room 4..8.  pre=1 rows are the "files left by an earlier instance" variants (their event lists are
+# additionally preceded by the earlier instance's backup_count+1 writes and an 'N').
+LENGTHS = {
+    'quick': {
+        ('A', 0, 0): [6, 6, 5, 5, 5], ('A', 0, 1): [5, 5, 5, 4, 4],
+        ('A', 1, 0): [5, 4, 4, 4, 3], ('A', 1, 1): [5, 4, 4, 4, 3],
+        ('B', 0, 0): [5, 5, 5, 4, 4],
+        ('C', 0, 0): [5, 5, 5, 4, 4], ('C', 0, 1): [5, 5, 5, 4, 4],
+        'D': 4,
+    },
+    'thorough': {
+        ('A', 0, 0): [7, 7, 7, 7, 7], ('A', 0, 1): [6, 6, 6, 6, 6],
+        ('A', 1, 0): [6, 6, 6, 5, 5], ('A', 1, 1): [5, 5, 5, 4, 4],
+        ('B', 0, 0): [6, 6, 6, 6, 6], ('B', 0, 1): [5, 5, 5, 5, 5],
+        ('C', 0, 0): [6, 6, 6, 6, 5], ('C', 0, 1): [5, 5, 5, 5, 5],
+        'D': 5,
+    },
+}
+BIG = {   # family C: the oversize write, by (tier, pre)
+    ('quick', 0): ['M', '2M+1'], ('quick', 1): ['M'],
+    ('thorough', 0): ['M', 'M+1', '2M+1'], ('thorough', 1): ['M', '2M+1'],
+}
 
 
 def _plan(tier):
     """-> list of cfg dicts (one per configuration x family)."""
-    q = tier == 'quick'
+    T = LENGTHS[tier]
     out = []
-    for m in _rooms(tier):
-        small = m <= 6
-        for n in (1, 2, 3):
-            for pre in (0, 1):
-                # A, time_format off
-                out.append(_cfg('A', m, n, 0, 'none', pre, L=(6 if small else 5) if q else 7))
-                # A, time_format on
-                for nl in ('none', 'end', 'mid'):
-                    out.append(_cfg('A', m, n, 1, nl, pre, L=(5 if small else 4) if q else (6 if small else 5)))
-                # C: one oversize write
-                big = ['M', '2M+1'] if q else ['M', 'M+1', '2M+1']
-                out.append(_cfg('C', m, n, 0, 'none', pre, L=((4 if small else 3) if q else 5) + 1, big=big))
-            # B: one reopen
-            for pre in ((0,) if q else (0, 1)):
-                out.append(_cfg('B', m, n, 0, 'none', pre, L=(4 if q else 5) + 1))
+    for (key, ls) in sorted((k, v) for k, v in T.items() if k != 'D'):
+        fam, tf, pre = key
+        for m, L in zip(ROOMS, ls):
+            for n in (1, 2, 3):
+                # with time_format and pre-existing files only the one-line payloads
+                nls = ('none',) if not tf or pre else ('none', 'end', 'mid')
+                for nl in nls:
+                    out.append(_cfg(fam, m, n, tf, nl, pre, L, big=BIG[tier, pre] if fam == 'C' else None))
     for rot in ('none', 'mb0'):
         for tf in (0, 1):
             for nl in ('none', 'end', 'mid'):
                 for dtype in ('str', 'bytes'):
                     for seed in (0, 1):
-                        out.append(_cfg('D', 5, 2 if rot == 'mb0' else 0, tf, nl, 0, L=4 if q else 5,
+                        out.append(_cfg('D', 5, 2 if rot == 'mb0' else 0, tf, nl, 0, L=T['D'],
                                         rot=rot, dtype=dtype, seed=seed))
     return out
 
@@ -123,28 +140,30 @@ def _cfg(fam, m, n, tf, nl, pre, L, rot='on', dtype='alt', seed=0, big=None):
 
 
 def bounds(tier):
-    plan = _plan(tier)
+    T = LENGTHS[tier]
 
-    def lens(fam, tf=None):
-        return sorted({(c['max_bytes'], c['L']) for c in plan if c['fam'] == fam and (tf is None or c['tf'] == tf)})
+    def row(key):
+        return dict(zip(['room=%d' % m for m in ROOMS], T[key])) if key in T else 'not in this tier'
     return {
-        'max_bytes': {'time_format off': [4, 5, 6, 7, 8],
-                      'time_format on': [m + P_LEN + 1 for m in (4, 5, 6, 7, 8)],
-                      'note': 'with time_format each one-line record costs %d extra bytes, so max_bytes is shifted '
-                              'by that much and payload sizes stay 1..3 .. 1..7' % (P_LEN + 1)},
+        'max_bytes': {'time_format off': ROOMS, 'time_format on': [m + P_LEN + 1 for m in ROOMS],
+                      'note': 'room = max_bytes (time_format off) or max_bytes-%d (on: each one-line record costs '
+                              '%d extra bytes); payload sizes are 1..room-1, i.e. every record as written is '
+                              'shorter than max_bytes' % (P_LEN + 1, P_LEN + 1)},
         'backup_count': [1, 2, 3],
-        'write_sizes': '1..max_bytes-1 as written (payload 1..room-1)',
-        'A_sequence_length_by_max_bytes(time_format off)': lens('A', 0),
-        'A_sequence_length_by_max_bytes(time_format on, newline modes none/end/mid)': lens('A', 1),
-        'B_one_reopen(R or N)_at_every_position_length_by_max_bytes': lens('B'),
-        'C_one_oversize_write_at_every_position_length_by_max_bytes': lens('C'),
-        'C_oversize_sizes': ['max_bytes', '2*max_bytes+1'] if tier == 'quick' else
-                            ['max_bytes', 'max_bytes+1', '2*max_bytes+1'],
-        'pre_existing_files': 'A, C: with and without; B: %s' % ('without' if tier == 'quick' else 'with and without'),
+        'A_all_write_size_sequences_of_length': {
+            'time_format off': row(('A', 0, 0)), 'time_format off, files left by an earlier instance': row(('A', 0, 1)),
+            'time_format on (newline modes none/end/mid)': row(('A', 1, 0)),
+            'time_format on, files left by an earlier instance (newline mode none)': row(('A', 1, 1))},
+        'B_length_incl_exactly_one_R_or_N_at_every_position': {
+            'fresh': row(('B', 0, 0)), 'files left by an earlier instance': row(('B', 0, 1))},
+        'C_length_incl_exactly_one_oversize_write_at_every_position': {
+            'fresh': row(('C', 0, 0)), 'files left by an earlier instance': row(('C', 0, 1)),
+            'oversize sizes fresh': BIG[tier, 0], 'oversize sizes with earlier files': BIG[tier, 1]},
         'D_rotation_off': {'settings': ['none given', 'max_bytes=0 backup_count=2'], 'alphabet': [1, 2, 3, 4, 'R', 'N'],
-                           'length': 4 if tier == 'quick' else 5, 'payload': ['str', 'bytes'],
+                           'length': T['D'], 'payload': ['str', 'bytes'],
                            'newline_modes': ['none', 'end', 'mid'], 'time_format': ['off', 'on'],
                            'file_pre_exists': [False, True]},
+        'shorter_sequences': 'every proper prefix of an enumerated sequence is judged too (once)',
         'sampling': 'none',
     }
 
@@ -444,8 +463,20 @@ class Engine(object):
                 pass
 
 
+def _scratch_root():
+    """TMPDIR if the caller set one; else the tmpfs at /dev/shm when there is one (16 workers doing
+    create/rename/unlink on one journalled disk filesystem spend most of their time contending in the
+    kernel: ~900 us of CPU per case against ~300 us on tmpfs); else tempfile's default."""
+    if os.environ.get('TMPDIR'):
+        return None
+    shm = '/dev/shm'
+    if os.path.isdir(shm) and os.access(shm, os.W_OK | os.X_OK):
+        return shm
+    return None
+
+
 def _scratch():
-    d = tempfile.mkdtemp(prefix='c20-')
+    d = tempfile.mkdtemp(prefix='c20-', dir=_scratch_root())
     real = os.path.realpath(d)
     for forbidden in ('/repo', '/verif'):
         if real == forbidden or real.startswith(forbidden + os.sep):
